@@ -1,10 +1,6 @@
 package world
 
-import (
-)
-
-
-
+import ()
 
 func (w *World) setupExtras() { w.setupLights() }
 
@@ -12,13 +8,7 @@ func (w *World) actExtra(wl *Wallet, n *Node, v1ok, v2ok bool) []*PoolTxn {
 	return w.actContracts(wl, n, v1ok, v2ok)
 }
 
-
-
-
-
 func (w *World) crashNode(n *Node)   {}
 func (w *World) restartNode(n *Node) {}
 
 func (w *World) finalChecks() {}
-
-
